@@ -46,6 +46,10 @@ def mkval(v):
     """Values are unique ints (every read attributable to one write) or {'list': n} -> [n]."""
     if isinstance(v, dict) and 'list' in v:
         return [v['list']]
+    if isinstance(v, dict) and 'cm' in v:          # column metadata (values of grid.column)
+        return {'u': v['cm']}
+    if isinstance(v, dict) and 'cml' in v:         # column metadata holding a 3.0-only value
+        return {'u': [v['cml']]}
     return v
 
 
@@ -56,8 +60,8 @@ class C16(BaseCheck):
     step_unit = 'map operations, each followed by a full comparison with the model'
     tiers = {'quick': {'budget_s': 35, 'max_runs': 10 ** 9},
              'thorough': {'budget_s': 600, 'max_runs': 10 ** 9}}
-    rule = ('seeded histories (2-40 ops) over 3-5 keys on SortableDict, MetadataObject, grid.metadata and '
-            'grid.column[c]; swarm: enabled op kinds, refusal kinds and position-argument mix drawn per run. '
+    rule = ('seeded histories (2-40 ops) over 3-5 keys on SortableDict, MetadataObject, grid.metadata, '
+            'grid.column[c] and grid.column itself; swarm: enabled op kinds, refusal kinds and position-argument mix drawn per run. '
             'distinct = (class, sequence of (op kind, position flavour, ok/refused), final length); '
             'non-trivial = at least two successful mutations of which one is positional '
             '(positioned add/relocation, pop_at, sort, reverse) followed by at least one full observation')
@@ -78,7 +82,7 @@ class C16(BaseCheck):
     def generate(self, run_seed, i, tier):
         r = rng.stream(run_seed, 'ops')
         k = rng.stream(run_seed, 'knobs')
-        cls = k.choice(['sd', 'sd', 'mo', 'mo', 'gmeta', 'cmeta'])
+        cls = k.choice(['sd', 'sd', 'mo', 'mo', 'gmeta', 'cmeta', 'gcols'])
         nkeys = k.choice([3, 3, 4, 4, 5])
         keys = KEYS[:nkeys]
         case = {'class': cls, 'nkeys': nkeys}
@@ -92,9 +96,11 @@ class C16(BaseCheck):
         init_keys = keys[:]
         k.shuffle(init_keys)
         case['init'] = [[kk, 10 + j] for j, kk in enumerate(init_keys[:ninit])]
+        if cls == 'gcols':
+            case['init'] = [[kk, {'cm': v}] for kk, v in case['init']]
         kinds = ['set', 'add', 'add', 'add', 'del', 'pop', 'pop_at', 'popitem', 'setdefault', 'update',
                  'clear', 'sort', 'reverse']
-        if cls != 'sd':
+        if cls not in ('sd', 'gcols'):
             kinds += ['append', 'extend']
         # swarm: a random subset of kinds is enabled in this run (always keep 'add')
         enabled = [x for x in sorted(set(kinds)) if x == 'add' or k.random() < 0.7]
@@ -107,6 +113,8 @@ class C16(BaseCheck):
             v = 100 + j
             if cls in ('gmeta', 'cmeta') and r.random() < 0.2:
                 v = {'list': 100 + j}
+            if cls == 'gcols':
+                v = {'cml': 100 + j} if r.random() < 0.2 else {'cm': 100 + j}
             key = r.choice(keys)
             if op == 'set':
                 ops.append({'op': 'set', 'k': key, 'v': v})
@@ -142,7 +150,8 @@ class C16(BaseCheck):
                 ops.append({'op': 'setdefault', 'k': key, 'v': v})
             elif op == 'update':
                 m = r.choice([1, 2, 3])
-                ops.append({'op': 'update', 'pairs': [[r.choice(keys), 1000 * (jj + 1) + j] for jj in range(m)],
+                ops.append({'op': 'update', 'pairs': [[r.choice(keys), ({'cm': 1000 * (jj + 1) + j} if cls == 'gcols' else 1000 * (jj + 1) + j)]
+                                                      for jj in range(m)],
                             'as': r.choice(['pairs', 'dict'])})
             elif op == 'clear':
                 ops.append({'op': 'clear'})
@@ -194,7 +203,8 @@ class C16(BaseCheck):
         else:
             gver = case.get('gver')
             pre3 = gver is not None and hs.Version(gver) < hs.VER_3_0
-            refuses = (lambda v: isinstance(v, list)) if pre3 else (lambda v: False)
+            refuses = (lambda v: isinstance(v, list) or (isinstance(v, dict) and any(isinstance(x, list) for x in v.values()))) \
+                if pre3 else (lambda v: False)
             how = case.get('init_as', 'pairs')
             if how == 'dict':
                 src = dict(map(tuple, init))
@@ -212,6 +222,13 @@ class C16(BaseCheck):
                         src = SortableDict(src)
                     grid = hs.Grid(version=gver, metadata=src, columns=[('x', [])])
                 m = grid.metadata
+            elif cls == 'gcols':
+                # the map under test is grid.column itself: column name -> column metadata
+                grid = hs.Grid(version=gver, columns=[(k, dict(v)) for k, v in init] if how != 'none' else None)
+                if how == 'none':
+                    for k, v in init:
+                        grid.column[k] = v
+                m = grid.column
             else:
                 if how == 'none':
                     grid = hs.Grid(version=gver, columns=[('c', []), ('d', [])])
@@ -385,13 +402,20 @@ class C16(BaseCheck):
         """observe_at: order of metadata in dumps."""
         hs = self.hszinc
         want = [p[0] for p in items]
+        if case['class'] == 'gcols' and not want:
+            return None            # a grid without columns cannot be dumped at all (not an ordering matter)
         try:
             z = hs.dump(grid, mode=hs.MODE_ZINC)
             j = json.loads(hs.dump(grid, mode=hs.MODE_JSON))
         except Exception as e:
             return 'dump-order', {'what': 'dump raised', 'exc': type(e).__name__, 'msg': str(e)[:200]}
         lines = z.split('\n')
-        if case['class'] == 'gmeta':
+        if case['class'] == 'gcols':
+            if not want:
+                return None        # a grid without columns cannot be dumped at all (not an ordering matter)
+            zk = [part.split(' ')[0] for part in lines[1].split(',')]
+            jk = [c['name'] for c in j['cols']]
+        elif case['class'] == 'gmeta':
             toks = lines[0].split(' ')[1:]
             zk = [t.split(':')[0] for t in toks]
             jk = [k for k in j['meta'].keys() if k != 'ver']
